@@ -967,8 +967,12 @@ impl From<&LCh> for Color {
         #![allow(clippy::many_single_char_names)]
         const DEG2RAD: Scalar = std::f64::consts::PI / 180.0;
 
-        let a = color.c * Scalar::cos(color.h * DEG2RAD);
-        let b = color.c * Scalar::sin(color.h * DEG2RAD);
+        // reduce the angle to one turn first (exact), a huge angle loses its position within
+        // the turn when it is multiplied by DEG2RAD
+        let h = color.h % 360.0;
+
+        let a = color.c * Scalar::cos(h * DEG2RAD);
+        let b = color.c * Scalar::sin(h * DEG2RAD);
 
         Self::from(&Lab {
             l: color.l,
